@@ -3,6 +3,7 @@
 #pragma once
 #include "vrt.hpp"
 #include <unordered_map>
+#include <deque>
 #include <string>
 
 namespace vrt {
@@ -119,7 +120,7 @@ struct Tracked {
 // ------------------------------------------------------------------------------------------ QAlloc
 struct QLedger {
     struct Blk { void* p; size_t bytes; bool allocated; bool constructed; int id; const char* type; long dealloc_step; };
-    std::vector<Blk> blks;
+    std::deque<Blk> blks;              // deque: references stay valid across scheduling points inside construct/destroy
     std::unordered_map<void*, int> by_addr;
     long null_destroy = 0, null_dealloc = 0, dealloc_constructed = 0;
     long allocs = 0, deallocs = 0, constructs = 0, destroys = 0;
@@ -141,6 +142,8 @@ struct QLedger {
     Blk* find(void* p) { auto it = by_addr.find(p); return it == by_addr.end() ? nullptr : &blks[(size_t)it->second]; }
 };
 inline QLedger& ledger() { static QLedger l; return l; }
+inline bool qtrace() { static bool t = std::getenv("VRT_TRACE") != nullptr; return t; }
+#define VRT_QTRACE(...) do { if (::vrt::qtrace()) std::fprintf(stderr, __VA_ARGS__); } while (0)
 
 template<class T>
 struct QAlloc {
@@ -157,6 +160,7 @@ struct QAlloc {
         L.blks.push_back({p, bytes, true, false, id, __PRETTY_FUNCTION__, -1});
         L.by_addr[p] = id;
         L.allocs++;
+        VRT_QTRACE("[q] step=%ld f%d allocate #%d %p (%zu bytes)\n", rt().res.steps, self(), id, p, bytes);
         return static_cast<T*>(p);
     }
     void deallocate(T* p, size_t) {
@@ -168,6 +172,7 @@ struct QAlloc {
         }
         QLedger::Blk* b = L.find(p);
         if (!b) fail("alloc-unknown", "deallocate of a pointer the allocator never returned");
+        VRT_QTRACE("[q] step=%ld f%d deallocate #%d\n", rt().res.steps, self(), b->id);
         if (!b->allocated) fail("double-free", "block #" + std::to_string(b->id) + " deallocated twice");
         if (b->constructed) {
             L.dealloc_constructed++;
@@ -187,6 +192,7 @@ struct QAlloc {
         QLedger& L = ledger();
         QLedger::Blk* b = L.find(p);
         if (!b || !b->allocated) fail("alloc-unknown", "construct in memory that is not an allocated block");
+        VRT_QTRACE("[q] step=%ld f%d construct #%d\n", rt().res.steps, self(), b->id);
         if (b->constructed) fail("double-construct", "construct over a live object");
         ::new ((void*)p) U(std::forward<A>(a)...);     // may throw: then nothing is recorded
         b->constructed = true; L.constructs++;
@@ -200,6 +206,7 @@ struct QAlloc {
         }
         QLedger::Blk* b = L.find(p);
         if (!b) fail("alloc-unknown", "destroy of an object that is not in an allocator block");
+        VRT_QTRACE("[q] step=%ld f%d destroy #%d\n", rt().res.steps, self(), b->id);
         if (!b->allocated) fail("use-after-free", "destroy of an object in freed block #" + std::to_string(b->id));
         if (!b->constructed) fail("double-destroy", "destroy of block #" + std::to_string(b->id) + " which holds no live object");
         b->constructed = false; L.destroys++;
